@@ -60,6 +60,10 @@ class LearnableThermometerThresholding(nn.Module):
         thresholds = self.get_thresholds()  # (T,)
         if x.ndim == 3:  # (B, H, W)
             x = x.unsqueeze(1)  # -> (B, 1, H, W)
+        if x.ndim != 4 or x.shape[1] != 1:
+            # anything else would be broadcast against the (1, T, 1, 1) thresholds: a (B, T, H, W) batch would be compared channel i
+            # with threshold i only
+            raise ValueError(f"expected a batch of single-channel images, (B, H, W) or (B, 1, H, W), got shape {tuple(x.shape)}")
         thresholds = thresholds.view(1, -1, 1, 1)
 
         if self._frozen:
